@@ -344,13 +344,21 @@ class Agent(dbus.service.Object):
                 # the received encoding is stale now
                 blk.delfieldval('btsd')
 
-            for blk in ctr.block_type(BundleAgeBlock):
-                ctr.remove_block(blk)
             create_dtntime = ctr.bundle.primary.create_ts.getfieldval('dtntime')
             if create_dtntime != 0:
+                for blk in ctr.block_type(BundleAgeBlock):
+                    ctr.remove_block(blk)
                 now_dtntime = self.timestamp().getfieldval('dtntime')
                 age = now_dtntime - create_dtntime
                 ctr.add_block(CanonicalBlock() / BundleAgeBlock(age=age))
+            else:
+                # The source has no clock, the received age is all there is
+                # so keep it and add the time spent at this node
+                now_pytime = datetime.datetime.now(datetime.timezone.utc)
+                dwell = (now_pytime - ctr.actions['receive']) // datetime.timedelta(milliseconds=1)
+                for blk in ctr.block_type(BundleAgeBlock):
+                    blk.payload.age += dwell
+                    blk.delfieldval('btsd')
 
             self.send_bundle(ctr)
             # Status after send 'success'
